@@ -69,7 +69,7 @@ func genH(t *rapid.T) HCase {
 	n := rapid.IntRange(1, 5).Draw(t, "nroutes")
 	for i := 0; i < n; i++ {
 		r := PRoute{Host: rapid.SampledFrom([]string{"a.test", "a.test", "b.test", "*.a.test", "*"}).Draw(t, "host"),
-			Location: rapid.SampledFrom([]string{"", "", "/p", "/p/q"}).Draw(t, "loc")}
+			Location: rapid.SampledFrom([]string{"", "", "/", "/p", "/p/q"}).Draw(t, "loc")}
 		switch rapid.IntRange(0, 3).Draw(t, "shape") {
 		case 0: // unprotected, unrestricted
 		case 1: // protected, unrestricted
@@ -94,10 +94,13 @@ func genH(t *rapid.T) HCase {
 	kinds := []string{"none", "exact", "exact", "wrongpass", "wronguser", "other", "emptyuser", "emptypass", "badb64", "lowerscheme", "noscheme"}
 	for i := 0; i < m; i++ {
 		q := HReq{Form: rapid.SampledFrom([]string{"origin", "origin", "absolute", "absolute", "connect", "http10", "h2c"}).Draw(t, "form"),
-			Host: rapid.SampledFrom(hosts).Draw(t, "qhost"), Path: rapid.SampledFrom([]string{"/", "/p", "/p/q/r", "/z", "/%70", "/%70/q/r", "/p/%71", "/%70/%71/r", "/p%2Fq"}).Draw(t, "qpath"),
+			Host: rapid.SampledFrom(hosts).Draw(t, "qhost"), Path: rapid.SampledFrom([]string{"/", "/p", "/p/q/r", "/z", "/%70", "/%70/q/r", "/p/%71", "/%70/%71/r", "/p%2Fq", ""}).Draw(t, "qpath"),
 			Auth:      Cred{Kind: rapid.SampledFrom(kinds).Draw(t, "akind"), Of: rapid.IntRange(0, len(c.Routes)-1).Draw(t, "aof")},
 			ProxyAuth: Cred{Kind: rapid.SampledFrom(append([]string{"none", "none", "none"}, kinds...)).Draw(t, "pkind"), Of: rapid.IntRange(0, len(c.Routes)-1).Draw(t, "pof")},
 			HdrCase:   rapid.IntRange(0, 2).Draw(t, "hcase")}
+		if q.Path == "" && q.Form != "absolute" {
+			q.Path = "/" // only the absolute form ("GET http://host HTTP/1.1") and CONNECT can have an empty path
+		}
 		c.Reqs = append(c.Reqs, q)
 	}
 	return c
